@@ -25,7 +25,8 @@ separately and `decodeFrame (encodeFrame p) = p` is a theorem
 
 `Variant` selects, per known defect, the behaviour *as found* (`false`) or
 *repaired* (`true`): F20 Target MIU ignores the DID byte, F26 ATN without DID,
-F27 retransmitted ACK rejected, F40 DSL/RLS during the first Target.exchange.
+F27 retransmitted ACK rejected, F40 DSL/RLS during the first Target.exchange, F41 repeated RTOX
+request handed to Target.exchange as a new request.
 -/
 namespace NfcVerif.NfcDep
 
@@ -184,10 +185,11 @@ structure Variant where
   f26 : Bool
   f27 : Bool
   f40 : Bool
+  f41 : Bool   -- a repeated RTOX request is answered with the saved response (not handed to `exchange`)
   deriving DecidableEq, Repr
 
-def Variant.repaired : Variant := ⟨true, true, true, true⟩
-def Variant.asFound : Variant := ⟨false, false, false, false⟩
+def Variant.repaired : Variant := ⟨true, true, true, true, true⟩
+def Variant.asFound : Variant := ⟨false, false, false, false, false⟩
 
 structure Cfg where
   b106 : Bool
@@ -231,6 +233,12 @@ structure TState where
 
 def TState.init (pt : List Bytes) : TState :=
   { pni := none, loc := .listen, depRes := none, tosend := pt, got := [], status := .running }
+
+/-- `dep_res is not None and dep_res.pfb.fmt == DEP_RES.TimeoutExtension` -/
+def TState.rtoxPending (t : TState) : Bool :=
+  match t.depRes with
+  | some (.dep f _ _ _ _) => f == fTOX
+  | _ => false
 
 def TState.die (t : TState) (e : Exc) : TState × Option Pdu := ({ t with status := .raised e }, none)
 
@@ -297,7 +305,10 @@ where
     | .dep fmt pni _ _ data =>
       if fmt = fATN then (t, some (.dep fATN 0 c.tdid none []))
       else if fmt = fNAK then (t, t.depRes)
-      else if fmt = fTOX then tAccept c t fmt pni data
+      else if fmt = fTOX then
+        -- as found the RTOX request is always returned to the caller; repaired (F41): only to
+        -- `send_timeout_extension`, a repeated one gets the saved response again
+        if c.v.f41 = true ∧ t.rtoxPending = false then (t, t.depRes) else tAccept c t fmt pni data
       else if t.pni = some pni then (t, t.depRes)
       else tAccept c t fmt pni data
     | _ => (t, none)
